@@ -137,6 +137,15 @@ func runC19(r *Run) {
 			name := pick(r.Rng, names)
 			kind := pick(r.Rng, []string{"set", "set", "set", "empty", "nokey", "delete", "deleting", "none"})
 			val := fmt.Sprintf("value-%d-%d", it, e)
+			// a client secret is an opaque string: white space at either end (a trailing newline from `echo`, a leading blank) is part of it
+			switch r.Rng.Intn(6) {
+			case 0:
+				val += "\n"
+			case 1:
+				val = " " + val + "  "
+			case 2:
+				val = "\t" + val
+			}
 			key := types.NamespacedName{Namespace: ns, Name: name}
 			sec := &corev1.Secret{ObjectMeta: metav1.ObjectMeta{Namespace: ns, Name: name}}
 			existing := &corev1.Secret{}
